@@ -17,7 +17,7 @@ LEVEL = "fault_enumeration"
 ANCHORS = ("ladim/warm_start.py", "ladim/configure.py", "ladim/model.py", "ladim/release.py", "ladim/out_netcdf.py")
 RULE = ("fault = crash of the running model (no finish(), open handles dropped) followed by a warm start from a "
         "completed output file; for each seeded uninterrupted run U (continuous or discrete release, deaths by IBM and "
-        "by leaving the grid, age / accumulated forcing-derived weight / scalar forcing in the state, particle "
+        "by leaving the grid, age / accumulated forcing-derived weight / position-dependent dose / scalar forcing in the state, particle "
         "variables, EF/RK2/RK4, split output, durations on and off the period grid) EVERY completed file k of U is a "
         "restart point (up to 6 per U): the model is really run again and killed at a seeded step between the close of "
         "file k and the close of file k+1, only the files whose last record had been written are copied to a fresh "
@@ -42,7 +42,7 @@ REQUIRED_PROBES = ["restart", "restart_from_older_file", "chain2", "chain3", "st
 PROFILE = gen.profile(
     nsteps=(6, 40), p_reversed=0.0, p_land=0.4, p_subgrid=0.3, p_bathy_var=0.5, N=(1, 4), p_levels=0.6,
     cfl=(0.05, 0.5), p_time_dependent=0.8, p_temp=0.8, rows=(2, 8), p_late_rows=0.8, p_rows_outside=0.2,
-    p_continuous=0.6, p_ibm=1.0, p_kills=0.7, p_lifetime=0.5, p_deact=0.0, p_weight=0.7,
+    p_continuous=0.6, p_ibm=1.0, p_kills=0.7, p_lifetime=0.5, p_deact=0.0, p_weight=0.7, p_dose=0.7,
     schemes=(("EF", 2), ("RK2", 1), ("RK4", 1)), p_numrec=1.0, numrec=(1, 4), p_dense=0.0, p_f4=0.0, p_pvars=0.6,
     p_release_time_pvar=0.6, p_extra_float=0.4, p_extra_time=0.0, p_lonlat_out=0.0, period=(1, 5), p_stop_extra=0.2,
     p_reference=0.5, spacing=(1, 8), p_multifile=0.6,
@@ -114,6 +114,8 @@ def compare_to_U(res: Result, sc, U: readback.Records, Urec_by_time: dict, R2: r
                 bad = np.abs(a - b) > 1e-5
             elif name == "Z":
                 bad = np.abs(a - b) > 1e-6 * np.maximum(1.0, np.abs(a))
+            elif name == "dose":       # integral of positions: inherits their tolerance
+                bad = np.abs(a - b) > 1e-4 * np.maximum(1.0, np.abs(a))
             else:
                 bad = np.abs(a - b) > 1e-9 * np.maximum(1.0, np.abs(a))
             bad |= np.isnan(a) != np.isnan(b)
